@@ -1,15 +1,19 @@
 #!/bin/bash
-# tools/trymut.sh <patch.diff> <ID> [<ID>...] [-- extra check args]
-# apply a seeded change to /repo, run the named checks (quick tier unless VERIF_TIER is set), always undo.
-patch=$1; shift
-cd /repo || exit 3
-if [ -n "$(git status --porcelain --untracked-files=no)" ]; then echo "/repo not clean" >&2; exit 3; fi
-trap 'git -C /repo checkout -- . ' EXIT
-git apply "$patch" || { echo "patch does not apply" >&2; exit 3; }
+# tools/trymut.sh <patch.diff> <ID> [<ID>...]
+# Apply a seeded change to a scratch worktree of /repo HEAD (never to /repo itself), run the named checks on it
+# (quick tier unless VERIF_TIER is set) with evidence/replays written to a scratch directory, remove everything.
+patch=$(readlink -f "$1"); shift
+wt=$(mktemp -d /tmp/wt_mut_XXXXXX); rmdir $wt
+git -C /repo worktree add -q $wt HEAD || exit 3
+trap 'git -C /repo worktree remove --force '$wt' 2>/dev/null; rm -rf '$wt'.scratch' EXIT
+cp -r /repo/sigpyproc.egg-info $wt/ 2>/dev/null
+git -C $wt apply "$patch" || { echo "patch does not apply" >&2; exit 3; }
+mkdir -p $wt.scratch
 rc=0
 for id in "$@"; do
   echo "=== $id on $(basename $(dirname $patch))"
-  /verif/check "$id" --tier "${VERIF_TIER:-quick}" 2>&1 | tail -${TAILN:-6}
+  SYMX_REPO=$wt SYMX_EVIDENCE_DIR=$wt.scratch/evidence SYMX_REPLAY_DIR=$wt.scratch/replays SYMX_NUMBA_CACHE=$wt.scratch/numba \
+    /verif/check "$id" --tier "${VERIF_TIER:-quick}" 2>&1 | tail -${TAILN:-6}
   r=${PIPESTATUS[0]}; echo "exit=$r"; [ $r -ne 0 ] && rc=$r
 done
 exit $rc
